@@ -210,9 +210,9 @@ func ReceivePack(
 			Progress:    progress,
 		}
 		if hookErr := opts.Hooks.PreReceive(ctx, info); hookErr != nil {
-			rejected := make(map[plumbing.ReferenceName]error, len(updreq.Commands))
+			rejected := make([]commandStatus, 0, len(updreq.Commands))
 			for _, cmd := range updreq.Commands {
-				rejected[cmd.Name] = hookErr
+				rejected = append(rejected, commandStatus{cmd.Name, hookErr})
 			}
 			if err := sendReportStatus(writeCloser, nil, rejected); err != nil {
 				_ = closeWriter(w)
@@ -232,13 +232,13 @@ func ReceivePack(
 	}
 
 	var firstErr error
-	cmdStatus := make(map[plumbing.ReferenceName]error)
-	updateReferences(st, updreq, cmdStatus, &firstErr)
+	cmdStatus := make([]commandStatus, 0, len(updreq.Commands))
+	updateReferences(st, updreq, &cmdStatus, &firstErr)
 
 	if opts.Hooks.PostReceive != nil {
 		applied := make([]*packp.Command, 0, len(updreq.Commands))
-		for _, cmd := range updreq.Commands {
-			if cmdStatus[cmd.Name] == nil {
+		for i, cmd := range updreq.Commands {
+			if cmdStatus[i].err == nil {
 				applied = append(applied, cmd)
 			}
 		}
@@ -279,20 +279,28 @@ func closeWriter(w io.WriteCloser) error {
 	return nil
 }
 
-func sendReportStatus(w io.WriteCloser, unpackErr error, cmdStatus map[plumbing.ReferenceName]error) error {
+// commandStatus is the outcome of one command. Outcomes are kept per command,
+// in command order, not per reference name: a request that names a reference
+// twice gets one report line per command, as git sends.
+type commandStatus struct {
+	ref plumbing.ReferenceName
+	err error
+}
+
+func sendReportStatus(w io.WriteCloser, unpackErr error, cmdStatus []commandStatus) error {
 	rs := &packp.ReportStatus{}
 	rs.UnpackStatus = "ok"
 	if unpackErr != nil {
 		rs.UnpackStatus = unpackErr.Error()
 	}
 
-	for ref, err := range cmdStatus {
+	for _, cs := range cmdStatus {
 		msg := "ok"
-		if err != nil {
-			msg = err.Error()
+		if cs.err != nil {
+			msg = cs.err.Error()
 		}
 		status := &packp.CommandStatus{
-			ReferenceName: ref,
+			ReferenceName: cs.ref,
 			Status:        msg,
 		}
 		rs.CommandStatuses = append(rs.CommandStatuses, status)
@@ -305,8 +313,8 @@ func sendReportStatus(w io.WriteCloser, unpackErr error, cmdStatus map[plumbing.
 	return nil
 }
 
-func setStatus(cmdStatus map[plumbing.ReferenceName]error, firstErr *error, ref plumbing.ReferenceName, err error) {
-	cmdStatus[ref] = err
+func setStatus(cmdStatus *[]commandStatus, firstErr *error, ref plumbing.ReferenceName, err error) {
+	*cmdStatus = append(*cmdStatus, commandStatus{ref, err})
 	if *firstErr == nil && err != nil {
 		*firstErr = err
 	}
@@ -333,7 +341,7 @@ func storedValue(s storer.ReferenceStorer, n plumbing.ReferenceName, old plumbin
 	return cur, true
 }
 
-func updateReferences(st storage.Storer, req *packp.UpdateRequests, cmdStatus map[plumbing.ReferenceName]error, firstErr *error) {
+func updateReferences(st storage.Storer, req *packp.UpdateRequests, cmdStatus *[]commandStatus, firstErr *error) {
 	for _, cmd := range req.Commands {
 		exists, err := referenceExists(st, cmd.Name)
 		if err != nil {
@@ -385,6 +393,9 @@ func updateReferences(st storage.Storer, req *packp.UpdateRequests, cmdStatus ma
 				continue
 			}
 			setStatus(cmdStatus, firstErr, cmd.Name, nil)
+		default:
+			// every command gets exactly one status, so that statuses and commands stay aligned
+			setStatus(cmdStatus, firstErr, cmd.Name, ErrUpdateReference)
 		}
 	}
 }
